@@ -1,6 +1,6 @@
 (* C15 - what the delta values mean: regression slope, zero on constants, Kaldi's clamping *)
 From Coq Require Import ZArith List Bool Lia ZifyBool.
-From Verif Require Import C15.Model C15.ProofsBase C15.ProofsTensor C15.ProofsDeltas1 C15.ProofsDeltasND.
+From Verif Require Import C15.Model C15.ProofsBase C15.ProofsGen C15.ProofsTensor C15.ProofsDeltas1 C15.ProofsDeltasND.
 Import ListNotations.
 Open Scope Z_scope.
 
@@ -48,7 +48,7 @@ Proof.
   set (t := nth ax idx 0) in *. set (n := nth ax (tsh X) 0) in *.
   rewrite (zsum_ext _ _ (fun k => (a + b * t) * (k - W) + b * ((k - W) * (k - W)))).
   2:{ intros k Hk. rewrite ext_val_inside by lia. rewrite Hr by lia. ring. }
-  rewrite zsum_add, !zsum_scale. rewrite sum_centered by lia. unfold delta_den. lia.
+  rewrite zsum_add, !zsum_scale. rewrite sum_centered by lia. rewrite delta_den_eq. lia.
 Qed.
 
 (* edge padding = Kaldi's clamping of the frame index *)
